@@ -572,6 +572,38 @@ func (d *Driver) nativeRun(pkg string, harnessNames []string, files []string) (m
 	cmd.Env = append(env, "GOFLAGS=-mod=mod", "GOPROXY=off", "VERIFND_REPLAY_DIR="+rdir)
 	out, runErr := cmd.CombinedOutput()
 	outcomes := map[string]*nativeOutcome{}
+	// A replay that crashes the test process (panic in a goroutine) takes the
+	// replays after it down with it: rerun with the finished ones removed.
+	for attempt := 0; ; attempt++ {
+		crashed := d.parseNativeOutput(out, outcomes)
+		remaining := 0
+		for _, f := range files {
+			if outcomes[filepath.Base(f)] != nil {
+				os.Remove(filepath.Join(rdir, filepath.Base(f)))
+			} else {
+				remaining++
+			}
+		}
+		if !crashed || remaining == 0 || attempt >= len(files) {
+			break
+		}
+		cmd2 := exec.Command(cmd.Args[0], cmd.Args[1:]...)
+		cmd2.Dir, cmd2.Env = cmd.Dir, cmd.Env
+		out, runErr = cmd2.CombinedOutput()
+	}
+	if len(outcomes) == 0 && len(files) > 0 {
+		tail := string(out)
+		if len(tail) > 3000 {
+			tail = tail[len(tail)-3000:]
+		}
+		return nil, fmt.Errorf("go test produced no replay output (err=%v):\n%s", runErr, tail)
+	}
+	return outcomes, nil
+}
+
+// parseNativeOutput folds the output of one native replay process into
+// outcomes; it reports whether a replay crashed the process.
+func (d *Driver) parseNativeOutput(out []byte, outcomes map[string]*nativeOutcome) (crashed bool) {
 	var cur *nativeOutcome
 	curName := ""
 	sc := bufio.NewScanner(strings.NewReader(string(out)))
@@ -611,13 +643,7 @@ func (d *Driver) nativeRun(pkg string, harnessNames []string, files []string) (m
 			cur = nil
 		}
 	}
-	if !sawBegin && len(files) > 0 {
-		tail := string(out)
-		if len(tail) > 3000 {
-			tail = tail[len(tail)-3000:]
-		}
-		return nil, fmt.Errorf("go test produced no replay output (err=%v):\n%s", runErr, tail)
-	}
+	_ = sawBegin
 	// a process-level crash (e.g. panic in a goroutine, fatal error) leaves a "crash" status:
 	// treat as panic and keep the tail of the output as message
 	for _, o := range outcomes {
@@ -633,9 +659,10 @@ func (d *Driver) nativeRun(pkg string, harnessNames []string, files []string) (m
 				tail = tail[:400]
 			}
 			o.msg = strings.ReplaceAll(tail, "\n", " | ")
+			crashed = true
 		}
 	}
-	return outcomes, nil
+	return crashed
 }
 
 // applyNativeHooks rewrites source files for the native build according to harness/native_hooks.json.
